@@ -4,6 +4,7 @@ import hashlib
 import hmac
 from .common import *  # noqa: F401,F403
 from . import common
+import json
 from .c01 import spec_ckd_priv, rand_parent
 import impl
 
@@ -298,6 +299,34 @@ def extra_checks(rng, tier, g, info):
     yield from numeric_forms(rng, tier, info)
     yield from _soak(rng, tier, g, info)
     yield from _derived_masters(rng, tier, info)
+    yield from _edited_results(rng, tier, info)
+
+
+def _edited_results(rng, tier, info):
+    """the caller edits / empties the BIP85 block (and whole reports) it received from a wallet; the next request on the
+    same wallet still answers with the specified child secrets"""
+    n = 0
+    for _ in range(1 if tier == "quick" else 8):
+        k = rng.randrange(1, N)
+        chain = bytes(rng.getrandbits(8) for _ in range(32))
+        xprv = common.xkey_string(0x0488ADE4, 0, bytes(4), 0, chain, b"\x00" + k.to_bytes(32, "big"))
+        w = impl.make_wallet("xkey:" + sx(xprv))
+        first = json.loads(json.dumps(w.bip85_data()))
+        for how in ("bip85_data", "generate"):
+            got = w.bip85_data() if how == "bip85_data" else w.generate(account=0, interval=(0, 1))
+            common.scribble(got)
+            again = json.loads(json.dumps(w.bip85_data()))
+            rep = w.generate(account=0, interval=(0, 1))
+            n += 2
+            if again != first or rep.get("BIP85") != first:
+                yield ("# wallet %s: the caller emptied the value returned by %s(), then asked again" % (xprv, how),
+                       "the BIP85 block is no longer the one first given (now %s...)" % json.dumps(again)[:80])
+                return
+        want_wif = indep("wif", k, chain, 0, 0)
+        if want_wif is not None and want_wif not in json.dumps(first):
+            yield ("# wallet %s: bip85_data()" % xprv, "the BIP85 block does not contain the WIF of index 0 (%s)" % want_wif)
+            return
+    info["edited_result_requests"] = n
 
 
 def _derived_masters(rng, tier, info):
